@@ -188,6 +188,81 @@ def h_two_steps(S, B):
     S.observe("repliesB", [sorted(r.annotations.keys()) for r in repliesB])
 
 
+CALL1 = ["tagged", "plain", "tagged_raise"]
+CALL2 = ["plain", "tagged", "plain_raise", "oneway", "reply-lost", "server-gone"]
+
+
+def client_call(p, sock, kind):
+    from Pyro5 import client
+    try:
+        if kind == "oneway":
+            client._RemoteMethod(p._pyroInvoke, "tagged_oneway", 0)()
+        elif kind in ("reply-lost", "server-gone"):
+            client._RemoteMethod(p._pyroInvoke, "tagged", 0)()
+        else:
+            client._RemoteMethod(p._pyroInvoke, kind, 0)()
+        return "returned"
+    except errors.CommunicationError:
+        return "communication-error"
+    except (ValueError, KeyError):
+        return "method-exception"
+
+
+def h_client_side(S, B):
+    """the client half: after each call the calling thread observes only the annotations of that call's reply"""
+    rig.reset(S)
+    del SEEN[:]
+    daemon = rig.make_daemon()
+    daemon.objectsById["obj"] = Target()
+    p, sock = rig.make_proxy(daemon, "obj", methods={"tagged", "plain", "tagged_raise", "plain_raise", "tagged_oneway"},
+                             oneway={"tagged_oneway"})
+    sock.server_on_own_thread = True
+    sock.timeout = 2.0
+    k1 = S.choice("call1", CALL1)
+    k2 = S.choice("call2", CALL2)
+    if S.flag("stale_annotations_before_the_first_call"):
+        current_context.response_annotations = {"OLD!": b"left by an earlier call"}
+    else:
+        current_context.response_annotations = {}
+    out1 = client_call(p, sock, k1)
+    obs1 = sorted(current_context.response_annotations.keys())
+    S.cover("client:" + out1)
+    S.check("first-call-outcome", out1 == ("method-exception" if k1.endswith("raise") else "returned"))
+    if k1 == "tagged":
+        S.check("client-sees-the-annotation-of-its-reply", obs1 == ["TAGA"])
+    elif k1 == "plain":
+        S.check("client-sees-no-annotation-when-the-reply-has-none", obs1 == [])
+    else:
+        S.check("client-sees-at-most-the-annotation-of-the-failed-call", obs1 in ([], ["TAGA"]))
+    if k2 == "reply-lost":
+        # the request is executed, its reply never arrives
+        orig = sock.inbox
+        sock.at_end = "timeout"
+
+        class Sink(list):
+            def append(self, x):
+                pass
+        sock.inbox = Sink()
+    elif k2 == "server-gone":
+        sock.server_alive = False
+        sock.at_end = "reset"
+    out2 = client_call(p, sock, k2)
+    rig.run_pending_threads()
+    obs2 = sorted(current_context.response_annotations.keys())
+    S.cover("client2:" + k2)
+    if k2 == "tagged":
+        S.check("second-call-sees-its-own-annotation", out2 == "returned" and obs2 == ["TAGA"])
+    elif k2 == "plain":
+        S.check("second-call-sees-no-annotation-of-the-first", out2 == "returned" and obs2 == [])
+    elif k2 == "plain_raise":
+        S.check("failed-second-call-sees-no-annotation-of-the-first", out2 == "method-exception" and obs2 == [])
+    elif k2 == "oneway":
+        S.check("oneway-call-sees-no-annotation-of-the-first", out2 == "returned" and obs2 == [])
+    else:
+        S.check("call-without-a-reply-sees-no-annotation-of-the-first", out2 == "communication-error" and obs2 == [])
+    S.observe("client", (out1, obs1, out2, obs2))
+
+
 def _reset():
     from pysym.runner import default_reset
     default_reset()
@@ -198,6 +273,11 @@ INTERPRET_MODULES = ["harness.rig"]
 STUBS = rig.STUBS
 
 SPECS = [
+    Spec("client_side", h_client_side, {"quick": {}, "thorough": {}},
+         covers=["client:returned", "client:method-exception", "client2:oneway", "client2:reply-lost",
+                 "check:second-call-sees-no-annotation-of-the-first", "check:call-without-a-reply-sees-no-annotation-of-the-first"],
+         native_patch=env.native_env, reset=_reset,
+         desc="two consecutive calls of one client thread through the real Proxy._pyroInvoke against the real daemon (served on its own thread): first call tagged / plain / raising, second call plain / tagged / raising / oneway / reply lost / server gone; the client's response annotations after each call are those of that call's reply only"),
     Spec("two_steps", h_two_steps, {"quick": {"SERS": [1, 3], "FLAGSB": False}, "thorough": {"SERS": [1, 2, 3, 4], "FLAGSB": True}},
          covers=["two-steps", "check:B-reply-carries-no-annotation-of-A", "check:A-method-sees-A-seq",
                  "check:B-method-sees-B-connection"],
